@@ -6,6 +6,9 @@
 #include <occa/internal/core/streamTag.hpp>
 #include <occa/internal/utils/env.hpp>
 #include <occa/internal/io.hpp>
+#ifdef LIBOCCA_OCCA_VERIF
+#include <occa/internal/utils/verif.hpp>
+#endif
 
 namespace occa {
   modeDevice_t::modeDevice_t(const occa::json &properties_) :
@@ -13,9 +16,16 @@ namespace occa {
     properties(properties_),
     needsLauncherKernel(false),
     bytesAllocated(0),
+#ifdef LIBOCCA_OCCA_VERIF
+    maxBytesAllocated((verif::created(verif::kDevice, this), 0)) {}
+#else
     maxBytesAllocated(0) {}
+#endif
 
   modeDevice_t::~modeDevice_t() {
+#ifdef LIBOCCA_OCCA_VERIF
+    verif::destroyed(verif::kDevice, this);
+#endif
     // Null all wrappers
     while (deviceRing.head) {
       device *mem = (device*) deviceRing.head;
